@@ -855,6 +855,27 @@ class SymStr:
     def __ne__(self, o):
         return not self.__eq__(o)
 
+    def _order(self, o, fn):
+        if isinstance(o, SymStr):
+            o = o.v
+        if not isinstance(o, (builtins.str, tuple)):
+            return NotImplemented            # str.__lt__(int) -> NotImplemented, like the built-in
+        if isinstance(self.v, builtins.str) and isinstance(o, builtins.str):
+            return fn(self.v, o)
+        raise EngineLimit("ordering of uninterpreted decoded text")
+
+    def __lt__(self, o):
+        return self._order(o, lambda a, b: a < b)
+
+    def __le__(self, o):
+        return self._order(o, lambda a, b: a <= b)
+
+    def __gt__(self, o):
+        return self._order(o, lambda a, b: a > b)
+
+    def __ge__(self, o):
+        return self._order(o, lambda a, b: a >= b)
+
     def __hash__(self):
         if isinstance(self.v, builtins.str):
             return hash(self.v)
